@@ -69,9 +69,19 @@ func VerifC08_Callback() {
 	e.k.SetRequestContext(e.ctx, e.ctxID, rc)
 	e.k.AddRequestBatchExpiration(e.ctx, e.ctxID, expiry)
 	e.k.SetRequestBatchExpirationHeight(e.ctx, e.ctxID, expiry)
+	// the first provider's answer may be an ERROR answer: an error result and no output - it settles the
+	// request like any answer, but contributes no output towards the threshold
+	firstIsError := verifChoice("firstAnswerIsError", 2) == 1
+	good := 0
 	answer := func(id tmbytes.HexBytes, p sdk.AccAddress) {
-		_, _, err := e.k.AddResponse(e.ctx, id, p, `{"code":200,"message":""}`, `{"header":{},"body":{"rate":1}}`)
-		verifAssume(err == nil)
+		var err error
+		if firstIsError && p.Equals(e.p1) {
+			_, _, err = e.k.AddResponse(e.ctx, id, p, `{"code":400,"message":"cannot serve"}`, "")
+		} else {
+			_, _, err = e.k.AddResponse(e.ctx, id, p, `{"code":200,"message":""}`, `{"header":{},"body":{"rate":1}}`)
+			good++
+		}
+		verifAssert(err == nil, "an active request is answered by the provider it was addressed to, with a result or with an error")
 	}
 	answers := 0
 	if verifChoice("firstAnswered", 2) == 1 {
@@ -103,7 +113,7 @@ func VerifC08_Callback() {
 		verifAssert(len(calls) == 1, "the callback fires exactly once when the batch expires")
 	}
 	if len(calls) == 1 {
-		verifAssert(calls[0].outputs == answers, "the callback receives the outputs of the answers given")
-		verifAssert(calls[0].failed == (answers < int(threshold)), "the callback reports success iff the response threshold was met")
+		verifAssert(calls[0].outputs == good, "the callback receives the outputs of the answers given (error answers carry none)")
+		verifAssert(calls[0].failed == (good < int(threshold)), "the callback reports success iff the response threshold was met by outputs")
 	}
 }
